@@ -119,6 +119,21 @@ theorem refStepBy_dom {pieces ps' : List σ} (hD : ∀ x ∈ pieces, D x)
     · exact hclosed p.1 p.2 r hr
     · exact hD x hx
 
+include hclosed in
+/-- Every piece of the reference result is in the domain (so mapping it through a total id
+function loses nothing). -/
+theorem refBpeFuelBy_dom : ∀ (n : Nat) (pieces : List σ), (∀ x ∈ pieces, D x) →
+    ∀ x ∈ refBpeFuelBy cat rank n pieces, D x := by
+  intro n
+  induction n with
+  | zero => intro pieces hD; exact hD
+  | succ n ih =>
+    intro pieces hD
+    simp only [refBpeFuelBy]
+    cases hs : refStepBy cat rank pieces with
+    | none => exact hD
+    | some ps' => exact ih ps' (refStepBy_dom D cat rank hclosed hD hs)
+
 include hinj hlk hclosed in
 theorem fuel_sim : ∀ (n : Nat) (pieces : List σ), (∀ x ∈ pieces, D x) →
     bpeMergeFuel M n (pieces.map v) = (refBpeFuelBy cat rank n pieces).map v := by
